@@ -248,6 +248,12 @@ pub fn make_remote(k: &KeySpec, plan: Arc<FailPlan>) -> Result<rcgen::KeyPair, S
 }
 
 /// Builds the rcgen key pair a `KeySpec` describes.
+/// The same PEM block with two header lines and the blank separator line after BEGIN.
+pub fn with_pem_headers(pem: &str) -> String {
+	let (first, rest) = pem.split_once('\n').expect("PEM text has lines");
+	format!("{first}\nComment: loaded by the harness\nX-Origin: fixture\n\n{rest}")
+}
+
 pub fn make_key(k: &KeySpec) -> Result<rcgen::KeyPair, String> {
 	if k.remote || !cfg!(feature = "crypto") {
 		return make_remote(k, Arc::new(FailPlan::default()));
@@ -261,13 +267,17 @@ pub fn make_key(k: &KeySpec) -> Result<rcgen::KeyPair, String> {
 		let fx = fixture(k);
 		let pool = fixtures().pools[&k.alg].len();
 		let alg = rcgen_alg(k);
-		let sel = (k.idx as usize / pool) % 5;
+		let sel = (k.idx as usize / pool) % 7;
 		let pk8 = PrivatePkcs8KeyDer::from(fx.pk8.as_slice());
 		let r = match sel {
 			0 => rcgen::KeyPair::from_pkcs8_der_and_sign_algo(&pk8, alg),
 			1 => rcgen::KeyPair::from_der_and_sign_algo(&PrivateKeyDer::Pkcs8(pk8), alg),
 			2 => rcgen::KeyPair::from_pkcs8_pem_and_sign_algo(&crate::pemstrict::encode("PRIVATE KEY", &fx.pk8), alg),
 			3 => rcgen::KeyPair::from_pem_and_sign_algo(&crate::pemstrict::encode("PRIVATE KEY", &fx.pk8), alg),
+			// PEM text carrying RFC 1421 style headers, which the PEM loaders accept
+			5 => rcgen::KeyPair::from_pem_and_sign_algo(&with_pem_headers(&crate::pemstrict::encode("PRIVATE KEY", &fx.pk8)), alg),
+			6 if !k.is_rsa() || k.rsa_hash == RsaHash::Sha256 => rcgen::KeyPair::from_pem(&with_pem_headers(&crate::pemstrict::encode("PRIVATE KEY", &fx.pk8))),
+			6 => rcgen::KeyPair::from_pkcs8_pem_and_sign_algo(&with_pem_headers(&crate::pemstrict::encode("PRIVATE KEY", &fx.pk8)), alg),
 			_ => match (&fx.legacy, cfg!(feature = "aws_be")) {
 				// SEC1 / PKCS#1 documents are only documented to load under aws-lc-rs
 				(Some(l), true) => {
